@@ -942,9 +942,16 @@ class Memory(Expression):
     @contextmanager
     def calculate(self, dst, long, force=False):
         if self.has_endian():
-            with self.without_endian().switch_endian(self.fmt) \
-                 .calculate(dst, long, force) as (dst, long):
-                yield dst, long
+            # swap the bytes of the unsigned value, extend the sign afterwards
+            fmt = self.fmt[-1]
+            unsigned = Memory(self.ebpf, fmt.upper(), self.address)
+            with unsigned.switch_endian(self.fmt) \
+                 .calculate(dst, long, force) as (dst, rlong):
+                if fmt in "hb" or long and fmt == 'i':
+                    shift = (64 if long else 32) - calcsize(fmt) * 8
+                    regs = self.ebpf.sr if long else self.ebpf.sw
+                    regs[dst] = (regs[dst] << shift) >> shift
+                yield dst, rlong
                 return
         with ExitStack() as exitStack:
             if isinstance(self.address, Sum):
